@@ -31,13 +31,17 @@ TECH = {
 }
 
 
+# checks that run silent on the unchanged tree (apart from listed known findings) and have been validated with mutants
+READY = [l.strip() for l in open(os.path.join(VERIF, "tools", "ready.txt")) if l.strip() and not l.startswith("#")]
+
+
 def main():
     props = [json.loads(l) for l in open(os.path.join(VERIF, "properties.jsonl"))]
     repo_fix = subprocess.run(["git", "-C", "/repo", "log", "--format=%h %s"], capture_output=True, text=True).stdout.splitlines()
     checks, na = [], []
     for p in props:
         pid = p["id"]
-        if os.path.exists(os.path.join(VERIF, "checks", pid.lower() + ".py")) and pid not in set(os.environ.get("VERIF_UNCLAIMED", "").split(",")):
+        if os.path.exists(os.path.join(VERIF, "checks", pid.lower() + ".py")) and pid in READY:
             tech, ref = TECH[pid]
             checks.append(
                 {
